@@ -22,14 +22,18 @@ from harness import common
 from harness.common import fhex
 
 GEN_MODULES = ['coords']
-MODEL_TARGETS = ['model/M_Coords.vo']
-PROOF_TARGETS = ['proofs/P_Coords_Real.vo', 'proofs/P_Coords_K.vo', 'proofs/P_Coords.vo', 'proofs/P_Coords_Rot.vo']
+MODEL_TARGETS = ['model/M_Coords.vo', 'model/M_CoordsSF.vo']
+PROOF_TARGETS = ['proofs/P_Coords_Real.vo', 'proofs/P_Coords_K.vo', 'proofs/P_Coords.vo', 'proofs/P_Coords_Rot.vo',
+                 'proofs/P_Coords_Sky.vo', 'proofs/P_Coords_Astropy.vo']
 LEVEL = 'proof'
 RULE = ('direction pairs: generic, poles, antipodes (exact and near), identical points, separations 1e-14..1e-8, '
         'RA shifted by full turns, equator, psi_floor; rotations incl. identical / near-identical / near-antipodal '
         'true-source pairs; azimuth in [0,2pi) incl. 0 and the wrap-around neighbours of the local sidereal angle, '
         'MJD 40000..75000 (integers and fractions); zenith in [0,pi]; psi in [0,pi] incl. 0, pi, 1e-12..1e-8, '
-        'sources at the poles, t in [0,2pi) incl. 0, pi and the neighbours of 2pi; NaN/inf inputs as malformed stream. '
+        'sources at the poles, t in [0,2pi) incl. 0, pi and the neighbours of 2pi; rotate_signal_events_on_sphere in batches '
+        '(mixed, one source, single event, ALL true directions within 1e-5 / 1e-9 / 0 of the source, antipodal, poles, reco '
+        '1e-9..2 rad from true, rotated direction exactly a pole); history probes (repeat / interleave / in-place update / '
+        'ownership / batch vs single / scalar / broadcast / factories); NaN/inf inputs as malformed stream. '
         'A case is non-trivial when its inputs are finite; distinct by input hash')
 TRUSTED = [
     'Coq 8.16.1 kernel (no vm_compute/native_compute needed by these proofs)',
@@ -43,7 +47,11 @@ TRUSTED = [
     'theorems are about the real-number reading: float rounding is outside (RA rounding to 2pi, NaN from |z|>1 were '
     'found by the predicates and fixed in /repo; exactly antipodal true/source pairs are numerically degenerate in floats)',
     'NumR.Ratan2 / Rfmod are the real-number readings of np.arctan2 / np.mod (definitions in base/NumR.v)',
-    'rotate_signal_events_on_sphere (astropy) is not modelled',
+    'rotate_signal_events_on_sphere: astropy position_angle / separation / directional_offset_by are oracles of the model '
+    '(contracts = theorem premises); their transcription M_Coords.ap_* (astropy 8.0.1 angles/utils.py) is proved to meet the '
+    'contracts and is compared with the real astropy path on every run',
+    'SpecFloat (Coq.Floats.SpecFloat) as the definition of binary64 arithmetic for the closed antipodal witness; its input '
+    'literals are compared with numpy on every run',
     'oracle of the predicates: Vincenty formula in Python floats',
 ]
 
@@ -271,7 +279,7 @@ def clampdec(d):
 def gen_rses_group(ctx, rng, gid, size=None):
     """one call of rotate_signal_events_on_sphere: a batch of events.  The batch kinds with ALL true directions
     next to the source matter: a shortcut taken for the whole batch (np.allclose) only shows there."""
-    gkind = rng.choice(['mixed', 'mixed', 'all-near-1e-5', 'all-near-1e-9', 'all-identical', 'single', 'one-source'])
+    gkind = rng.choice(['mixed', 'mixed', 'all-near-1e-5', 'all-near-1e-7', 'all-near-1e-9', 'all-identical', 'single', 'one-source'])
     n = 1 if gkind == 'single' else (size or rng.choice([2, 3, 8, 20]))
     out = []
     src0 = rnd_dir(rng)
@@ -281,9 +289,11 @@ def gen_rses_group(ctx, rng, gid, size=None):
             sdec = math.copysign(HALFPI - 1e-5, sdec)          # 0 < cos(dec) < 1e-12 is astropy's approximate pole branch
         k = gkind
         if gkind in ('mixed', 'single', 'one-source'):
-            k = rng.choice(['generic', 'generic', 'near-1e-5', 'near-1e-9', 'identical', 'antipodal', 'true-at-pole'])
+            k = rng.choice(['generic', 'generic', 'near-1e-5', 'near-1e-7', 'near-1e-9', 'identical', 'antipodal', 'true-at-pole'])
         if k in ('all-near-1e-5', 'near-1e-5'):
             tra, tdec = sra + 1e-5 * rng.uniform(-1, 1) * max(abs(sra), 0.1), sdec + 1e-5 * rng.uniform(-1, 1) * max(abs(sdec), 0.1)
+        elif k in ('all-near-1e-7', 'near-1e-7'):
+            tra, tdec = sra + 1e-7 * rng.uniform(-1, 1), sdec + 1e-7 * rng.uniform(-1, 1)
         elif k in ('all-near-1e-9', 'near-1e-9'):
             tra, tdec = sra + 1e-9 * rng.uniform(-1, 1), sdec + 1e-9 * rng.uniform(-1, 1)
         elif k in ('all-identical', 'identical'):
@@ -1249,6 +1259,52 @@ def model_side(ctx, lines, checks):
         ctx.broken.append({'kind': 'model-eval', 'error': str(ex)[:1500]})
 
 
+def check_float_witness(ctx):
+    """tie of the closed SpecFloat witness (C19_rotation_float_antipodal_refuted) to numpy: the literals of
+    M_CoordsSF.v are what numpy computes, and the implementation's result is the witness image"""
+    from skyllh.core.utils.coords import rotate_spherical_vector
+    site = 'coords.float-witness'
+    case = {'f': 'rot', 'kind': 'corpus-antipodal', 'ra1': 1.0, 'dec1': 0.5, 'ra2': 1.0 + PI, 'dec2': -0.5, 'ra3': 1.0, 'dec3': 0.5}
+    ra1, d1 = np.array([1.0]), np.array([0.5])
+    ra2, d2 = ra1 + np.pi, -d1
+    v1 = [float((np.cos(ra1) * np.cos(d1))[0]), float((np.sin(ra1) * np.cos(d1))[0]), float(np.sin(d1)[0])]
+    v2 = [float((np.cos(ra2) * np.cos(d2))[0]), float((np.sin(ra2) * np.cos(d2))[0]), float(np.sin(d2)[0])]
+    ca = np.cos(ra2 - ra1) * np.cos(d1) * np.cos(d2) + np.sin(d1) * np.sin(d2)
+    ca[ca > 1] = 1
+    ca[ca < -1] = -1
+    sa = float(np.sin(np.arccos(ca))[0])
+    lit = {'v1': [(4270852533788227, -53), (3325729363491873, -52), (539785169252447, -50)],
+           'v2': [(-4270852533788227, -53), (-6651458726983745, -53), (-539785169252447, -50)],
+           'c': [(-1, 0)], 's': [(4967757600021511, -105)]}
+    got = {'v1': v1, 'v2': v2, 'c': [float(ca[0])], 's': [sa]}
+    for k, pairs in lit.items():
+        if [math.ldexp(m, e_) for (m, e_) in pairs] != got[k]:
+            ctx.notes.append(f'float witness: numpy computes other input literals for {k} on this platform ({got[k]!r}); '
+                             'the closed Coq witness then speaks about neighbouring doubles')
+            ctx.count('float-witness:literals-differ')
+            return
+    if not ctx.model_ok:
+        return
+    try:
+        vals = common.coq_eval('c19w', 'From Coq Require Import ZArith SpecFloat.\nFrom Sky Require Import Num M_Coords M_CoordsSF.\n',
+                               ['wit_image'])
+    except RuntimeError as ex:
+        ctx.broken.append({'kind': 'model-eval', 'error': str(ex)[:1500]})
+        return
+    img = []
+    for t in vals[0]:
+        assert t[0] == 'S754_finite', t
+        img.append((-1 if t[1] else 1) * math.ldexp(t[2], t[3]))
+    (ra, dec) = rotate_spherical_vector(ra1, d1, ra2, d2, ra1.copy(), d1.copy())
+    want_ra = math.atan2(img[1], img[0]) % TWOPI
+    want_dec = math.asin(max(-1.0, min(1.0, img[2])))
+    ctx.corr_cases += 1
+    ctx.count('float-witness:checked')
+    if vincenty(float(ra[0]), float(dec[0]), want_ra, want_dec) > 1e-12:
+        ctx.disagree(site, case, [float(ra[0]), float(dec[0])], [want_ra, want_dec],
+                     'the implementation does not return the image computed by the SpecFloat model')
+
+
 def run(ctx):
     rng = ctx.rng
     mult = ctx.budget(1, 80)
@@ -1278,6 +1334,7 @@ def run(ctx):
     for c in cases[-3:] + cases[:2]:
         ctx.sample({k: v for k, v in c.items()})
     model_side(ctx, lines, checks)
+    check_float_witness(ctx)
 
 
 def replay(ctx, rp):
